@@ -251,7 +251,7 @@ theorem filterChunks_safe {pv pr : Nat → Bool} (B : Beh) (id k : Nat) {inner :
     · exact ih _ _ _ _ hg1 hk (hkr.trans hk1)
 
 theorem filter_safe (pv pr : Nat → Bool) (B : Beh) (id k : Nat) {inner : Writer}
-    (hin : Safe pv pr inner) : Safe pv pr (filterWrite B false id k inner) := by
+    (hin : Safe pv pr inner) (shadow : Bool) : Safe pv pr (filterWrite B false shadow id k inner) := by
   intro st m rm rows hg
   have h0 := filterInit_spec id hg
   have := filterChunks_safe B id k hin m (filterInit id st rm).2
@@ -510,7 +510,7 @@ theorem write_safe (pv pr : Nat → Bool) (B : Beh) : ∀ sh : Shape, sh.repaire
     simp only [Shape.repaired, Bool.and_eq_true, Bool.not_eq_eq_eq_not, Bool.not_true] at h
     obtain ⟨h1, h2⟩ := h
     subst h1
-    exact filter_safe pv pr B id k (ih h2)
+    exact filter_safe pv pr B id k (ih h2) false
   | transform id k inner ih => intro h; exact transform_safe pv pr B id k (ih h)
   | dedupe id k inner ih => intro h; exact dedupe_safe pv pr B id k (ih h)
   | multi a b iha ihb =>
